@@ -12,7 +12,7 @@ LEVEL = "exploration"
 TECHNIQUE = "Hypothesis-generated chains of posterior samples; save/load round trip compared bit-for-bit, concat order model, evaluate_model CLI column/chain-id differential"
 RULE = (
     "1..4 chains of 1..13 samples (>=10 forces the '10'<'2' string-order case) of one shipped type, parameters from arbitrary finite float64 up to 1e100 "
-    "(denormals, +-0.0, values that change under a float32 cast), empty or full single-effect table, chain files given to evaluate_model in a drawn order; "
+    "(denormals, +-0.0, values that change under a float32 cast), empty or full single-effect table, chain files given to evaluate_model in a drawn order (half of the cases: files in directories named with glob characters, spaces or non-ASCII letters); "
     "additionally a collection filled by a live model of that type across two add_observations calls (2 samples before, 2 after; and the concatenation of the two halves) is saved and reloaded; refusals: add beyond size, get_theta(-1/len), saving an empty holder. Non-trivial = (>=2 chains and a chain with >=10 samples) or a value that changes "
     "under float32. distinct = distinct case JSON."
 )
@@ -170,7 +170,8 @@ def check_case(case):
         loaded = []
         with np.errstate(all="ignore"):
             for ci, h in enumerate(holders):
-                p = tmp.fresh("thetas_%d.h5" % ci)
+                # in half the cases the chain files lie in directories whose names hold glob characters, spaces or non-ASCII letters
+                p = tmp.fresh("thetas_%d.h5" % ci, odd=(case["order_seed"] // 3 + ci) if case["order_seed"] % 2 else None)
                 paths.append(p)
                 if ci > 0:
                     holders[ci - 1].save_h5(p)  # the path already holds another chain: saving replaces it
@@ -214,8 +215,8 @@ def check_case(case):
                 require(msg is None, "concat.chain_major_order", lambda: "position %d of the concatenation is not the expected sample (order %r): %s" % (k, order, msg))
 
             if case["cli"]:
-                sfile = tmp.fresh("screen.h5")
-                out = tmp.fresh("evaluation.h5")
+                sfile = tmp.fresh("screen.h5", odd=(case["order_seed"] // 5) if case["order_seed"] % 2 else None)
+                out = tmp.fresh("evaluation.h5", odd=(case["order_seed"] // 7) if case["order_seed"] % 2 else None)
                 paths += [sfile, out]
                 screen.save_h5(sfile)
                 run_cli("evaluate_model", ["--screen", sfile, "--thetas"] + [files[i] for i in order] + ["--output", out])
